@@ -328,10 +328,13 @@ func (s *socket) setTransport(transport transports.Transport) {
 
 	transport.Once("error", onError)
 	transport.On("ready", onReady)
-	transport.On("packet", onPacket)
-	vhook.Yield("socket.setTransport.reading")
 	transport.On("drain", onDrain)
 	transport.Once("close", onClose)
+	// last: the reader of a websocket / webtransport transport starts with its
+	// first packet listener, and a peer that closes at once must find the
+	// close listener above in place
+	transport.On("packet", onPacket)
+	vhook.Yield("socket.setTransport.reading")
 
 	s.cleanupFn.Push(func() {
 		transport.RemoveListener("error", onError)
